@@ -1270,7 +1270,10 @@ class ObjectT(T):
                 lines.append("    def __post_init__(self, {}):".format(", ".join(f.name for f in initvars)))
                 for f in initvars:
                     lines.append(f"        object.__setattr__(self, 'seen_{f.name}', {f.name})")
-            if self.dep_req:
+            if self.dep_req and getattr(self, "dep_req_groups", None):
+                # group form: every member of a group requires all the others (self.dep_req holds the same rule, expanded)
+                lines.append("    _dr = dependent_required(" + ", ".join(repr(list(g)) for g in self.dep_req_groups) + ")")
+            elif self.dep_req:
                 lines.append("    _dr = dependent_required({" + ", ".join(f"{k!r}: {list(v)!r}" for k, v in self.dep_req.items()) + "})")
             for m in self.methods:
                 margs = ([repr(m["alias"])] if m.get("alias") else []) + ([f"conversion={m['conv']}"] if m.get("conv") else [])
